@@ -401,6 +401,22 @@ def check_step(rep, step, op, t, earlier, scratch=None):
         rep.viol(carrier, "well-formed-result", f"{where}: {why}; id={np.asarray(res.ndata.get('id')).tolist()} pid={np.asarray(res.ndata.get('pid')).tolist()}",
                  "ids = positions, single root" + (f" at {unsorted_root}" if unsorted_root is not None else " at 0, parents precede children") + ", all reach it")
 
+    # 1b. values of the two non-affine geometry transforms (the clauses of contracts/C03.py, on the real arrays)
+    if op[0] in ("RadiusReseter", "Normalizer") and ok:
+        try:
+            for k in res.ndata:
+                a, b = np.asarray(res.ndata[k]), snap[k]
+                if op[0] == "RadiusReseter" and k == "r":
+                    want, clause = np.full_like(b, op[1]), "every-radius-is-the-requested-one"
+                elif op[0] == "Normalizer" and k in ("x", "y", "z", "r"):
+                    want, clause = (b - np.min(b)) / np.max(b), "x-y-z-r-shifted-by-their-minimum-and-divided-by-their-maximum"
+                else:
+                    want, clause = b, "everything-else-kept"
+                if a.shape != want.shape or not np.allclose(a, want, rtol=1e-5, atol=1e-6, equal_nan=True):
+                    rep.viol(carrier, clause, f"{where}: column {k} = {a.tolist()}", f"{np.asarray(want).tolist()}")
+        except Exception as e:
+            rep.viol(carrier, "values-readable", f"{where}: {type(e).__name__}: {e}", "comparable columns")
+
     # 2. frame
     inputs_untouched("input-untouched", carrier)
 
